@@ -84,15 +84,17 @@ class Ctx:
                     self.nontrivial.add(h)
                     if len(self.samples) < self.max_samples:
                         self.samples.append(prop.sample_repr(case))
-        f = prop.check(case, self)
-        if f is None:
+        fs = prop.check(case, self)
+        if fs is None:
             return None
-        kid = prop.known(case, f, self)
-        if kid is not None:
+        # a check may report several failures of one case: listed findings are tallied, the first unlisted one is returned
+        for f in (fs if isinstance(fs, list) else [fs]):
+            kid = prop.known(case, f, self)
+            if kid is None:
+                return f
             if self.counting:
                 self.known[kid] += 1
-            return None
-        return f
+        return None
 
 
 class Property:
@@ -262,17 +264,17 @@ def check_known_witnesses(prop, entries, out):
             w = e.get('witness')
             if w is None:
                 continue
-            f = prop.check(w, ctx)
+            fs = prop.check(w, ctx)
+            fs = [] if fs is None else (fs if isinstance(fs, list) else [fs])
+            kids = [prop.known(w, f, ctx) for f in fs]
+            unlisted = [f for f, k in zip(fs, kids) if k is None]
             if e.get('status') == 'open':
-                if f is not None and prop.known(w, f, ctx) == e['id']:
+                if e['id'] in kids:
                     out.append('KNOWN-FINDING: property=%s %s [%s]' % (prop.id, e['what'], e['id']))
-                elif f is not None:
-                    viol.append((w, f))
-                else:
+                elif not fs:
                     out.append('NOTE: known finding %s no longer reproduces on this tree' % e['id'])
-            else:
-                if f is not None:
-                    viol.append((w, f))
+            if unlisted:
+                viol.append((w, unlisted[0]))
     finally:
         ctx.close()
     return viol
@@ -384,18 +386,22 @@ def run_replay(prop, path):
     case = data['case'] if 'case' in data else data
     ctx = Ctx(prop, 'quick', 0, 0, 1)
     try:
-        f = prop.check(case, ctx)
-        if f is None:
+        fs = prop.check(case, ctx)
+        fs = [] if fs is None else (fs if isinstance(fs, list) else [fs])
+        if not fs:
             print('REPLAY property=%s: case passes on this tree' % prop.id)
             return 0
-        kid = prop.known(case, f, ctx)
-        if kid is not None:
-            print('KNOWN-FINDING: property=%s replayed case belongs to listed finding %s' % (prop.id, kid))
-            print('  %r' % f)
-            return 0
-        print('VIOLATION property=%s replay=%s' % (prop.id, path))
-        print('  %r' % f)
-        return 1
+        rc = 0
+        for f in fs:
+            kid = prop.known(case, f, ctx)
+            if kid is not None:
+                print('KNOWN-FINDING: property=%s replayed case belongs to listed finding %s' % (prop.id, kid))
+                print('  %r' % f)
+            elif rc == 0:
+                print('VIOLATION property=%s replay=%s' % (prop.id, path))
+                print('  %r' % f)
+                rc = 1
+        return rc
     except Inconclusive as e:
         print('INCONCLUSIVE property=%s %s' % (prop.id, e))
         return 2
